@@ -416,10 +416,123 @@ theorem undo_createAccount (s : S) (hc : s.cache = none) (a : Nat) : UndoObs s (
       rw [objOf_setObj]; simp only [hab, if_false]
       rw [objOf_append, h2 b]; exact OptEqv.refl _ _ _
 
+/-! ### reads: they cache (objects, origins) but change nothing observable and journal nothing -/
+
+theorem getObj_txStore (s : S) (a : Nat) : (getObj s a).1.txStore = s.txStore := by
+  unfold getObj
+  split
+  · rfl
+  · split <;> rfl
+
+
+inductive ROp where
+  | acc (a : Nat)               -- GetBalance / GetNonce / GetCodeHash / Exist / Empty / HasSuicided: `getStateObject`
+  | state (a k : Nat)           -- GetState
+  | committed (a k : Nat)       -- GetCommittedState
+
+def applyR (s : S) : ROp → S
+  | .acc a => (readAcc s a).1
+  | .state a k => (getState s a k).1
+  | .committed a k => (getCommitted s a k).1
+
+theorem readAcc_fst (s : S) (a : Nat) : (readAcc s a).1 = (getObj s a).1 := by
+  unfold readAcc
+  rcases getObj s a with ⟨s1, _ | o⟩ <;> rfl
+
+theorem touch_congr (s s1 : S) (h : s1.txStore = s.txStore) (a : Nat) (o : Obj) (k : Nat) :
+    touchState s1 a o k = touchState s a o k ∧ cacheOrigin s1 a o k = cacheOrigin s a o k := by
+  unfold touchState cacheOrigin
+  rw [h]
+  exact ⟨rfl, rfl⟩
+
+theorem getState_fst (s : S) (a k : Nat) : (getState s a k).1 = modObj s a (fun o => touchState s a o k) := by
+  have h := getObj_txStore s a
+  unfold getState modObj
+  rcases hg : getObj s a with ⟨s1, _ | o⟩
+  · rfl
+  · rw [hg] at h; simp only; rw [(touch_congr s s1 h a o k).1]
+
+theorem getCommitted_fst (s : S) (a k : Nat) : (getCommitted s a k).1 = modObj s a (fun o => cacheOrigin s a o k) := by
+  have h := getObj_txStore s a
+  unfold getCommitted modObj
+  rcases hg : getObj s a with ⟨s1, _ | o⟩
+  · rfl
+  · rw [hg] at h; simp only; rw [(touch_congr s s1 h a o k).2]
+
+theorem objEqv_cacheOrigin (s : S) (a : Nat) (o : Obj) (k : Nat) : ObjEqv s.txStore a (cacheOrigin s a o k) o := by
+  unfold cacheOrigin
+  cases ho : AList.find? o.origin k with
+  | some w => simp only; exact ObjEqv.refl _ _ _
+  | none =>
+    simp only
+    have key : ∀ k', (match AList.find? (AList.set o.origin k (s.txStore.slot a k)) k' with | some v => v | none => s.txStore.slot a k') =
+        (match AList.find? o.origin k' with | some v => v | none => s.txStore.slot a k') := by
+      intro k'
+      by_cases hk : k = k'
+      · subst hk; simp [AList.find?_set_self, ho]
+      · simp [AList.find?_set_ne _ _ _ _ hk]
+    refine ⟨rfl, rfl, rfl, rfl, key, fun k' => ?_⟩
+    simp only
+    cases AList.find? o.dirty k' with
+    | some v => rfl
+    | none => exact key k'
+
+/-- the fields a read leaves alone -/
+structure Inert (s s' : S) : Prop where
+  journal : s'.journal = s.journal
+  dirties : s'.dirties = s.dirties
+  revisions : s'.revisions = s.revisions
+  nextRev : s'.nextRev = s.nextRev
+  store : s'.txStore = s.txStore
+  cache : s'.cache = s.cache
+  obs : s.cache = none → Obs s' s
+
+theorem getObj_frame (s : S) (a : Nat) :
+    (getObj s a).1.journal = s.journal ∧ (getObj s a).1.dirties = s.dirties ∧ (getObj s a).1.revisions = s.revisions ∧
+    (getObj s a).1.nextRev = s.nextRev ∧ (getObj s a).1.txStore = s.txStore ∧ (getObj s a).1.cache = s.cache := by
+  unfold getObj
+  split
+  · exact ⟨rfl, rfl, rfl, rfl, rfl, rfl⟩
+  · split <;> exact ⟨rfl, rfl, rfl, rfl, rfl, rfl⟩
+
+theorem inert_getObj (s : S) (a : Nat) : Inert s (getObj s a).1 := by
+  obtain ⟨f1, f2, f3, f4, f5, f6⟩ := getObj_frame s a
+  refine ⟨f1, f2, f3, f4, f5, f6, fun hc => ?_⟩
+  obtain ⟨_, h2, h3, h4, h5, h6, h7, h8⟩ := getObj_spec s hc a
+  exact obs_intro h4 hc ⟨h3, h5, h6, h7, h8⟩ (fun b => by rw [h2 b]; exact OptEqv.refl _ _ _)
+
+theorem inert_modObj (s : S) (a : Nat) (f : Obj → Obj) (hf : ∀ o, ObjEqv s.txStore a (f o) o) : Inert s (modObj s a f) := by
+  obtain ⟨f1, f2, f3, f4, f5, f6⟩ := getObj_frame s a
+  have hfr : (modObj s a f).journal = s.journal ∧ (modObj s a f).dirties = s.dirties ∧ (modObj s a f).revisions = s.revisions ∧
+      (modObj s a f).nextRev = s.nextRev ∧ (modObj s a f).txStore = s.txStore ∧ (modObj s a f).cache = s.cache := by
+    unfold modObj
+    rcases hg : getObj s a with ⟨s1, _ | o⟩
+    · rw [hg] at f1 f2 f3 f4 f5 f6; exact ⟨f1, f2, f3, f4, f5, f6⟩
+    · rw [hg] at f1 f2 f3 f4 f5 f6; exact ⟨f1, f2, f3, f4, f5, f6⟩
+  refine ⟨hfr.1, hfr.2.1, hfr.2.2.1, hfr.2.2.2.1, hfr.2.2.2.2.1, hfr.2.2.2.2.2, fun hc => ?_⟩
+  obtain ⟨m1, c1, k1⟩ := modObj_spec s hc a f
+  refine obs_intro k1 hc c1 (fun b => ?_)
+  rw [m1 b]
+  by_cases hab : a = b
+  · subst hab
+    simp only [if_true]
+    cases objOf s a with
+    | none => exact True.intro
+    | some o => exact hf o
+  · simp only [hab, if_false]; exact OptEqv.refl _ _ _
+
+theorem inert_read (s : S) (r : ROp) : Inert s (applyR s r) := by
+  cases r with
+  | acc a => show Inert s (readAcc s a).1; rw [readAcc_fst]; exact inert_getObj s a
+  | state a k => show Inert s (getState s a k).1; rw [getState_fst]; exact inert_modObj s a _ (fun o => objEqv_touch s a o k)
+  | committed a k =>
+    show Inert s (getCommitted s a k).1; rw [getCommitted_fst]; exact inert_modObj s a _ (fun o => objEqv_cacheOrigin s a o k)
+
 /-! ### transaction bodies: writes, CreateAccount, call frames nested to any depth -/
 
 inductive Tree where
   | w (op : WOp)
+  | r (op : ROp)
   | create (a : Nat)
   | frame (ok : Bool) (body : List Tree)
 
@@ -427,6 +540,7 @@ mutual
 /-- `CreateAccount` only where `evm.create` may call it: the store holds no slots under the address -/
 def Tree.OK (st : Store) : Tree → Prop
   | .w _ => True
+  | .r _ => True
   | .create a => ∀ k, st.slot a k = 0
   | .frame _ body => Tree.OKL st body
 def Tree.OKL (st : Store) : List Tree → Prop
@@ -437,6 +551,7 @@ end
 mutual
 def runT (s : S) : Tree → Option S
   | .w op => some (applyW s op)
+  | .r op => some (applyR s op)
   | .create a => some (createAccount s a)
   | .frame ok body =>
     match runTL (snapshot s).1 body with
@@ -450,6 +565,7 @@ end
 mutual
 def runGT (g : GethSpec.G) : Tree → GethSpec.G
   | .w op => (GethSpec.apply g (toSpec op)).1
+  | .r _ => g
   | .create a => (GethSpec.apply g (.createAccount a)).1
   | .frame ok body =>
     if ok then runGTL (GethSpec.apply g .snapshot).1 body
@@ -498,12 +614,6 @@ theorem Ext2.revOK {s s' : S} (h : Ext2 s s') (hrev : RevOK s) : RevOK s' := by
   · have := hrev x h1; omega
   · exact (b x h1).2
 
-theorem getObj_txStore (s : S) (a : Nat) : (getObj s a).1.txStore = s.txStore := by
-  unfold getObj
-  split
-  · rfl
-  · split <;> rfl
-
 theorem createAccount_frame (s : S) (a : Nat) :
     (createAccount s a).txStore = s.txStore ∧ (createAccount s a).cache = s.cache ∧
     (createAccount s a).revisions = s.revisions ∧ (createAccount s a).nextRev = s.nextRev := by
@@ -523,6 +633,10 @@ theorem ext2_write (s : S) (hc : s.cache = none) (w : WOp) : Ext2 s (applyW s w)
 theorem ext2_create (s : S) (hc : s.cache = none) (a : Nat) : Ext2 s (createAccount s a) := by
   obtain ⟨f1, f2, f3, f4⟩ := createAccount_frame s a
   exact ⟨undo_createAccount s hc a, ⟨[], by simp [f3], by simp⟩, by rw [f4]; exact Nat.le_refl _, f2.trans hc, f1⟩
+
+theorem ext2_of_inert {s s' : S} (h : Inert s s') (hc : s.cache = none) : Ext2 s s' :=
+  ⟨⟨[], by simp [h.journal], by simp, h.obs hc⟩, ⟨[], by simp [h.revisions], by simp⟩, by rw [h.nextRev]; exact Nat.le_refl _,
+    h.cache.trans hc, h.store⟩
 
 theorem ext2_snapshot (s : S) (hc : s.cache = none) : Ext2 s (snapshot s).1 := by
   refine ⟨⟨[], by simp [snapshot], by simp, ?_⟩, ⟨[(s.nextRev, s.journal.length)], rfl, ?_⟩, Nat.le_succ _, hc, rfl⟩
@@ -645,6 +759,10 @@ theorem runT_sim (b : Tree) (s : S) (g : GethSpec.G) (h : Sim s g) (hrev : RevOK
   | w op =>
     exact ⟨applyW s op, rfl, by simp only [runGT]; exact sim_applyW s g h op, ext2_write s h.cache op,
       by simp only [runGT]; exact extG_plain g (toSpec op) (toSpec_plain op)⟩
+  | r op =>
+    have hi := inert_read s op
+    exact ⟨applyR s op, rfl, by simp only [runGT]; exact sim_of_obs s _ g h (hi.obs h.cache), ext2_of_inert hi h.cache,
+      by simp only [runGT]; exact ExtG.refl g⟩
   | create a =>
     simp only [Tree.OK] at hok
     exact ⟨createAccount s a, rfl, by simp only [runGT]; exact sim_createAccount s g h a hok, ext2_create s h.cache a,
@@ -709,6 +827,7 @@ mutual
 theorem runT_ext (b : Tree) (s : S) (hc : s.cache = none) (hrev : RevOK s) : ∃ s', runT s b = some s' ∧ Ext2 s s' := by
   cases b with
   | w op => exact ⟨applyW s op, rfl, ext2_write s hc op⟩
+  | r op => exact ⟨applyR s op, rfl, ext2_of_inert (inert_read s op) hc⟩
   | create a => exact ⟨createAccount s a, rfl, ext2_create s hc a⟩
   | frame ok body =>
     have x0 := ext2_snapshot s hc
@@ -742,9 +861,9 @@ theorem C04_any_frame_revert_restores_partial (s : S) (hc : s.cache = none) (hre
 /-! ### non-vacuity: nothing is cached at the start; account 2 does not exist and is created inside a frame that fails -/
 
 def demoTree : List Tree :=
-  [ .w (.setState 1 0 5),
-    .frame false [ .w (.addBalance 2 7000000000000), .create 3, .w (.setNonce 3 1),
-                   .frame true [ .w (.setState 1 0 9), .w (.suicide 1) ] ],
+  [ .r (.state 1 0), .w (.setState 1 0 5),
+    .frame false [ .r (.acc 2), .w (.addBalance 2 7000000000000), .create 3, .w (.setNonce 3 1),
+                   .frame true [ .w (.setState 1 0 9), .r (.committed 1 1), .w (.suicide 1) ] ],
     .frame true [ .w (.setNonce 2 4), .frame false [ .w (.setCode 2 8), .w (.addRefund 3) ] ],
     .w (.setState 1 1 2) ]
 
